@@ -646,7 +646,7 @@ func p18UserQuery(ctx context.Context, ps *propertyServer, model map[int]*p18Ent
 
 func TestVerifC18Map(t *testing.T) {
 	verifkit.Run(t, verifkit.Spec[p18Case]{
-		Property: "C18", Unit: "map",
+		Property: "C18", Unit: "map", CrashReplay: true,
 		Rule: "1..3 data nodes (real property databases behind the real data-node listeners), 0..1 extra copies, 2 shards; 1..25 operations over 4 keys: " +
 			"Apply with the merge or the replace strategy and 1..4 of the tags t0..t3, Delete of a key, Delete of all keys, Query by id, with a limit >= the number of live keys and with generated positive criteria (eq / in / and / or), order by a tag, tag projection and a limit around the expected size, " +
 			"a burst of 95..130 applies to one key, 95..330 applies to fresh keys; with two copies optionally stretches in which node 0 is unreachable (misses updates and deletes) and serves its stale state afterwards - all through the real liaison PropertyService " +
